@@ -76,6 +76,11 @@ example : (mrun {} [.readOk true 1, .dispatch, .removeFiles, .parse 1, .handlerR
 -- parse error while reading the request
 example : (mrun {} [.readOk true 3, .dispatch, .handlerRet, .writeOk true, .loopReset, .readErr, .release, .close]).map (·.files)
     = some [] := by decide
+-- MultipartFormWithLimit on a stream: the form parsed completely (one temp file) but the body exceeds the limit:
+-- the file is gone when the call returns, hence at the next dispatch
+example : (mrun {} [.readOk false 0, .dispatch, .parseTooLarge 1]).map (·.files) = some [] := by decide
+example : (mrun {} [.readOk false 0, .dispatch, .parseTooLarge 1, .handlerRet, .writeOk true, .loopReset, .readOk false 0,
+    .dispatch]).map (·.files) = some [] := by decide
 -- events the loop cannot produce are rejected (the theorems are about real traces only)
 example : mrun {} [.dispatch] = none := by decide
 example : mrun {} [.readOk true 1, .dispatch, .handlerRet, .writeOk true, .readOk true 1] = none := by decide
